@@ -41,7 +41,7 @@ def strategy(tier):
         'meta': st.lists(st.one_of(st.tuples(st.sampled_from(['Title', 'Author', 'Date', 'My Key', 'Keywords']), st.sampled_from(['A Title', 'Jane & John <j@x>', '"2020"', 'x\ty', 'é中 & co'])),
                                    st.tuples(st.just('Base Header Level'), st.sampled_from(['2', '3']))),
                          max_size=4, unique_by=lambda t: t[0]),
-        'engine_leg': st.booleans(),
+        'engine_leg': st.booleans(), 'ctl': st.sampled_from([0, 0, 0, 1, 2, 3]),
         'preamble': st.one_of(st.just(None), gdoc.blocks(CFG)),
         'heads': st.lists(head, min_size=0, max_size=10),
         'nested': st.booleans(), 'crlf': st.booleans(), 'final_nl': st.booleans(),
@@ -136,6 +136,22 @@ def norm_title(t):
     return re.sub(r'[ \t]+$', '', re.sub(r'^[ \t]+', '', t))
 
 
+def control_roundtrip(w, ctx, src, heads, ext):
+    """XML cannot carry control characters other than TAB/LF/CR at all, so such an outline is not parsed as XML; what remains is the round trip
+    through the program's own reader: the re-imported document renders like the original."""
+    r = w.convert(src, 'opml', ext)
+    opml = r.out
+    cext = ext | EXT['COMPLETE']
+    h0 = w.convert(src, 'html', cext).out
+    t1 = w.call('opml2text', 's', opml)
+    h1 = w.convert(t1[1], 'html', cext).out if t1[0] == b'ok' else None
+    levels = [l for _, l, _ in heads]
+    proper = bool(levels) and levels[0] == 1 and all(b <= a + 1 for a, b in zip(levels, levels[1:]))
+    ctx.cls('control_characters:roundtrip_only')
+    if proper and h1 != h0 and not (not src.endswith(b'\n') and w.convert(src + b'\n', 'html', cext).out == h1):
+        raise Violation('roundtrip:html-differs', 'html(doc) != html(import(export(doc))) for a document with control characters\nsource=%r\nimported text=%r' % (src[:600], (t1[1] or b'')[:600]))
+
+
 def check(case, ctx):
     src, meta, pre_note, heads = build(case)
     if b'\x00' in src:
@@ -216,6 +232,9 @@ def check(case, ctx):
             w.call('pool', 'init')
             eid = w.call('enew', cext | EXT['PARSE_OPML'], opml)[1]
             try:
+                t0 = w.call('eopml2text', eid)
+                if t0[0] != b'ok' or t0[1] != text1 or t0[2] != opml:
+                    raise fail('import:reused-engine', 'mmd_engine_convert_opml_to_text() on the engine: text %r (one-shot import gave %r), engine source kept: %s' % (t0[1][:200], text1[:200], t0[2] == opml))
                 e1 = w.call('econv', eid, 'e', FMT['html'], '')[1]
                 em = w.call('econv', eid, 'ed', FMT['mmd'], '')[1]
                 e2 = w.call('econv', eid, 'e', FMT['html'], '')[1]
@@ -227,6 +246,8 @@ def check(case, ctx):
                 raise fail('import:reused-engine', 'an engine holding the OPML source gave different results on later conversions\nfirst html=%r\nsecond html=%r\nmmd=%r\nmmd again=%r'
                            % (e1[-300:], e2[-300:], em[:200], em2[:200]))
             ctx.cls('reused_engine_checked')
+    if case.get('ctl') and b'alpha' in src.lower():
+        control_roundtrip(w, ctx, re.sub(rb'(?i)alpha', lambda m: m.group(0)[:2] + (b'\x0c', b'\x1b', b'\x0b')[case['ctl'] % 3] + m.group(0)[2:], src), heads, ext)
     if len(heads) >= 2 and any(b > a for a, b in zip(levels, levels[1:])) and re.search(rb'[&<>"\']', b''.join(n for _, _, n in heads)):
         ctx.nontrivial(src)
         ctx.sample(src.decode('utf-8', 'replace'))
